@@ -238,13 +238,38 @@ impl Config {
         }
     }
 
+    /// order bit 8: every setter is first called with a DIFFERENT value (the builder methods are
+    /// plain "last call wins" setters, so the calls that follow must fully determine the result).
+    /// Not combined with the minimal style, which relies on untouched defaults.
+    fn construct_with_prelude(&self) -> Generator {
+        let g = self.construct();
+        if self.order & 8 == 0 || self.order & 7 == 2 {
+            return g;
+        }
+        let mut g = g
+            .with_opcode_range(self.min + 7, self.max + 11)
+            .with_min_opcodes(3)
+            .with_max_opcodes(9)
+            .with_mutator(Mk::Bitflip.kind().create(!self.mutator_flag()))
+            .with_mutators(vec![Mk::Typeconfusion.kind().create(true)])
+            .with_mutators(vec![])
+            .with_mutation_rate(if self.rate == 1.0 { 0.0 } else { 1.0 })
+            .with_unsafe_mutations(!self.unsafe_mut)
+            .with_ext_opcodes(!self.ext)
+            .with_buffer_opcodes(!self.buf);
+        if let Entropy::Seed(s) = self.entropy {
+            g = g.with_seed(!s);
+        }
+        g
+    }
+
     pub fn build(&self) -> Generator {
         let mk = |m: &Mk| m.kind().create(self.mutator_flag());
         let mut g = match self.order & 7 {
             1 | 4 | 6 => {
                 // flags first, single-item setters, range through the two separate methods
                 let mut g = self
-                    .construct()
+                    .construct_with_prelude()
                     .with_buffer_opcodes(self.buf)
                     .with_ext_opcodes(self.ext)
                     .with_unsafe_mutations(self.unsafe_mut)
@@ -284,7 +309,7 @@ impl Config {
                 g
             }
             _ => {
-                let mut g = self.construct().with_opcode_range(self.min, self.max);
+                let mut g = self.construct_with_prelude().with_opcode_range(self.min, self.max);
                 if let Entropy::Seed(s) = self.entropy {
                     g = g.with_seed(s);
                 }
@@ -462,7 +487,7 @@ pub fn gen_once(g: &mut Generator, entropy: &Entropy) -> Outcome {
 }
 
 /// fuzzer input (and its opcode count) that makes a plain generator of protocol `proto` keep
-/// 30 000 MARKs pending (kind 0) or store 30 000 memo entries (kind 1); steered once per process
+/// 12 000 MARKs pending (kind 0) or store 30 000 memo entries (kind 1); steered once per process
 pub fn giant_input(proto: u8, kind: usize) -> &'static (Vec<u8>, usize) {
     static GIANT: std::sync::OnceLock<Vec<(Vec<u8>, usize)>> = std::sync::OnceLock::new();
     let all = GIANT.get_or_init(|| {
@@ -474,13 +499,15 @@ pub fn giant_input(proto: u8, kind: usize) -> &'static (Vec<u8>, usize) {
                 1..=3 => b'r',
                 _ => 0x94,
             };
-            for (x, y) in [(b'(', b'N'), (memo_op, b'N')] {
-                let st = crate::workload::steer_long(&base, 30_000, false, 48, crate::workload::greedy_policy(x, y));
+            // 12 000 pending MARKs (they end up as 12 000 nested tuples, which is as deep as the
+            // recursive drop can go on a 2 MiB stack with room to spare) / 30 000 memo entries
+            for (x, y, steps) in [(b'(', b'N', 12_000usize), (memo_op, b'N', 30_000usize)] {
+                let st = crate::workload::steer_long(&base, steps, false, 48, crate::workload::greedy_policy(x, y));
                 let bytes = match st.cfg.entropy {
                     Entropy::Bytes(b) => b,
                     _ => Vec::new(),
                 };
-                v.push((bytes, 30_000));
+                v.push((bytes, steps));
             }
         }
         v
@@ -504,7 +531,7 @@ pub fn run_case(cfg: &Config, trace: Option<verif::Config>) -> CaseResult {
         let huge = w % 64 == 0;
         let style = (w >> 6) % 5;
         if w % 32 == 1 {
-            // ... and one in 32 is preceded by a giant one: 30 000 MARKs pending at once, or 30 000
+            // ... and one in 32 is preceded by a giant one: 12 000 MARKs pending at once, or 30 000
             // memo entries (tables far beyond any size-based threshold, output of 60-200 KB). The
             // input was steered on a plain generator, so the mutators and opt-in flags are set
             // aside through the public fields for that call and put back afterwards.
@@ -589,7 +616,11 @@ where
     F: Fn(usize, &mut A) + Sync,
     M: FnMut(&mut A, A),
 {
-    par_run_stack(0, n, make, f, merge)
+    // 256 MiB of (lazily committed) stack per worker: the monitors' own workloads nest tens of
+    // thousands deep (giant warm-ups, long pickles), and debug / sanitizer builds have large
+    // frames; an overflow would kill the monitor instead of producing a verdict. Stack use is
+    // judged where C09 bounds it: in child processes on a 2 MiB thread.
+    par_run_stack(256 << 20, n, make, f, merge)
 }
 
 /// `par_run` on worker threads with `stack_bytes` of stack (0 = the 2 MiB default). Used for
